@@ -36,6 +36,9 @@ EXPLANATION += (
     'earlier on the path or tested by the enclosing if), C15.6 treats statements control-dependent on `preload` as flows '
     '(only loading / dropping the in-memory copy, diagnostics and errors may depend on it).'
 )
+EXPLANATION += (
+    ' C15.9 - a memoised loader (lru_cache) re-raises the failure of every pool worker that fills its result before it returns (the futures are kept and result() is called; rule of C17.1 restricted to cached functions and their callees): a failed or short range read must not leave a partly filled value in the cache for later calls with the same key.'
+)
 ASSUMPTIONS = [
     'functools.lru_cache keys on all call arguments (including self, by identity when __eq__/__hash__ are not defined)',
     'single-threaded use of one reader (concurrent use is not in the statement)',
@@ -308,6 +311,7 @@ def run(ctx):
     identity(ctx, eff, memos)
     preload_equiv(ctx)
     preload_cover(ctx)
+    memo_fill_failures(ctx, 'C15.9')
     handle(ctx)
     config(ctx)
 
@@ -743,3 +747,38 @@ def config(ctx):
                 done = True
     if not done:
         raise AnalysisError('no loader method with a multithreading switch found')
+
+
+def memo_fill_failures(ctx, rule):
+    """A memoised function (lru_cache) that fills its result from pool workers must re-raise a worker's failure before it
+    returns: otherwise the call returns normally with a partly filled buffer, the cache keeps that value, and every later
+    call with the same key returns it although the file and the arguments are unchanged and the fault is gone (a fresh
+    reader returns the right data).  The rule of C17.1, restricted to cached functions and what they call."""
+    from .. import iorules as IO
+    P, G = ctx.P, ctx.G
+    ctx.rule(rule, 'a memoised loader re-raises the failure of any worker that fills its result (a failed fill is not cached)')
+    n = 0
+    for f in P.functions.values():
+        if not f.is_cached:
+            continue
+        todo, seen = [f], set()
+        while todo:
+            g = todo.pop()
+            if g.qualname in seen:
+                continue
+            seen.add(g.qualname)
+            for c in ast.walk(g.node):
+                if isinstance(c, ast.Call) and isinstance(c.func, ast.Attribute) and c.func.attr == 'submit':
+                    n += 1
+                    ok, why = IO.future_consumed(g, c, G)
+                    if ok:
+                        ctx.ok(rule, f, c, 'worker failures surface before the memoised value exists (%s)' % why)
+                    else:
+                        ctx.fail(rule, g, IO.stmt_of(c), 'the future of `%s` is dropped (%s) inside the memoised %s: a failed or short '
+                                 'range read leaves part of the buffer unfilled, the call returns normally and lru_cache keeps the '
+                                 'damaged value for every later call with the same key' % (U(c.func), why, f.qualname),
+                                 line=c.lineno)
+            for e in G.callees(g):
+                if e.target is not None and e.kind == 'direct' and e.target.module.name == g.module.name and len(seen) < 12:
+                    todo.append(e.target)
+    ctx.floor(rule, 3, 'pool submissions inside memoised loaders')
